@@ -429,6 +429,14 @@ def body_spelling(ctx: H.BaseCtx):
                 continue
             _same(ctx, d, x3, "in-place operator %s" % key)
             _same(ctx, x1, x2, "in-place operator %s: the left operand afterwards" % key)
+            # the same on a left operand as it is (it may have no field for a term of the result): refused, or the value of a op b
+            # (only where the operand's coefficient type is the result's: writing into a narrower type is out= business, not a spelling)
+            if isinstance(a, numpoly.ndpoly) and a.dtype == r1.dtype:
+                try:
+                    x4 = iops[key](a.copy(), b)
+                except Exception:
+                    continue
+                ctx.expect_model(x4, M.to_model(r1), "in-place operator %s on the operand as it is (returned instead of refusing)" % key)
     for key in case.get("unops", []):
         np_, npo_ = getattr(numpy, key), getattr(numpoly, key)
         try:
